@@ -103,7 +103,7 @@ for i in ids:
 NA_REASON = {}
 m = {
  "version": 1,
- "setup_cmd": "cd /verif/harness && CARGO_NET_OFFLINE=true cargo build --offline && CARGO_NET_OFFLINE=true cargo build --offline --no-default-features --features rustls-backend --target-dir target-rustls",
+ "setup_cmd": "cd /verif/harness && CARGO_NET_OFFLINE=true cargo build --offline && CARGO_NET_OFFLINE=true cargo build --offline --no-default-features --features rustls-backend --target-dir target-rustls && cargo +nightly fuzz build --fuzz-dir /verif/fuzz",
  "hooks": {
   "guard": "cargo feature verif-hooks",
   "enable": "the harness crate depends on attohttpc = { path = \"/repo\", features = [\"verif-hooks\", ...] }, so every ./check rebuilds /repo's working tree with the hooks on",
